@@ -17,7 +17,7 @@
    stdout per run:  RUN <i> rc=<code> steps=<n>
                     OUT info warn=<n> leaks=<n> types=<SC_SHMEM_NUM_TYPES>
                     OUT <rank> grid=<intrarank>/<intrasize>/<interrank>/<intersize> w=<w1><w2> type=<t>
-                               ag=<hex> pre=<hex> cp=<hex> w1=<hex> w2=<hex>
+                               ag=<hex> pre=<hex> cp=<hex> w1=<hex> w2=<hex> det=<1 if get_node_comms gives NULL,NULL after detach>
                     REPORT ... (when the run did not end normally, or warnings/leaks were recorded)
                     TRACE-BEGIN / trace lines / TRACE-END
                     END <i> mem=<sc_memory_status delta> */
@@ -133,6 +133,12 @@ static void rank_main (int rank, int size, void *varg)
   sc_shmem_free (sc_package_id, A, comm);
   simmpi_trace_note ("end");
   sc_mpi_comm_detach_node_comms (comm);
+  {
+    sc_MPI_Comm i2 = comm, e2 = comm;       /* after detach the communicator carries no node communicators any more */
+    sc_mpi_comm_get_node_comms (comm, &i2, &e2);
+    q += sprintf (q, " det=%d", (i2 == sc_MPI_COMM_NULL && e2 == sc_MPI_COMM_NULL) ? 1 : 0);
+  }
+  simmpi_trace_note ("free");
   mpiret = sc_MPI_Comm_free (&comm); SC_CHECK_MPI (mpiret);
   SC_FREE (mine);
   a->out[rank] = o;
